@@ -577,6 +577,10 @@ unsigned cmb_random_geometric(const double p)
     }
 
     unsigned x = (unsigned)ceil(cmb_random_std_exponential() / denom);
+    if (x < 1u) {
+        /* p == 1 (denom infinite) or an exponential variate of exactly zero */
+        x = 1u;
+    }
 
     cmb_assert_debug(x >= 1u);
     return x;
